@@ -1,6 +1,7 @@
 (* C13 -- lazy values are faithful views of their source text. Statements only. *)
 From Coq Require Import List NArith Arith.
 From SonicV Require Import Model.SkipAll Model.Skip Model.LazyOwned Model.ValueEdges.
+From SonicV Require Spec.Ref Model.RawSpan.
 Import ListNotations.
 Local Close Scope N_scope.
 Local Open Scope nat_scope.
@@ -22,3 +23,10 @@ Proof. exact push_frame. Qed.
 (* a lazy value's raw text is the trimmed input: a well-formed value has no whitespace at its edges *)
 Theorem raw_text_is_trimmed : forall v, Value v -> edge_ok v.
 Proof. exact value_edges. Qed.
+
+(* the raw text of a lazy value obtained from a whole input is the input with its surrounding whitespace
+   removed: the reference span cuts out exactly one value, with nothing but whitespace around it *)
+Theorem raw_text_is_the_trimmed_input : forall strict l v a b, Ref.ref_text strict l = Some (v, a, b) ->
+  Value (RawSpan.sub l a b) /\ ValueEdges.edge_ok (RawSpan.sub l a b) /\ all_ws (firstn a l) /\ all_ws (skipn b l) /\
+  l = firstn a l ++ RawSpan.sub l a b ++ skipn b l.
+Proof. exact RawSpan.reference_span_cuts_the_value. Qed.
